@@ -9,7 +9,7 @@ error).  The theorems hold for every broker state in which the connection is
 live and its session reference resolves; `Inv` (kept by every event, so true of
 every state reachable from the initial one) guarantees the latter.
 -/
-import Mqtt.Proofs.BrokerLifeInv
+import Mqtt.Proofs.BrokerLifeWill
 
 namespace Mqtt.Properties.C09
 open Mqtt.Iface.Broker Mqtt.Model.Broker Mqtt.Proofs.BrokerLife
@@ -151,5 +151,53 @@ example :
     (stop (first b 3 (.connect req) true).1 3).2 = [.closed 3] ∧
     ((stop (first b 3 (.connect req) true).1 3).1.topics.retained [120]).map (·.map (·.payload)) = some [[5]] := by
   decide
+
+/-! ### 4. nothing but `stop` publishes a will -/
+
+/-- `eraseWills b` is `b` with every stored will message removed: tries,
+connections, store, counters and all other session fields (the will flags
+included) are those of `b`. -/
+theorem C09_eraseWills_spec (b : B) (r : Nat) :
+    (eraseWills b).getSess r = (b.getSess r).map (fun s => { s with will := none }) ∧
+    (eraseWills b).topics = b.topics ∧ (eraseWills b).conns = b.conns ∧ (eraseWills b).store = b.store ∧
+    (eraseWills b).nextRef = b.nextRef ∧ (eraseWills b).ctr = b.ctr :=
+  ⟨ew_getSess b r, rfl, rfl, rfl, rfl, rfl⟩
+
+/-- Every event other than the end of a connection by `stop` — CONNECT, PUBLISH,
+PUBREL, SUBSCRIBE, UNSUBSCRIBE, DISCONNECT, any other packet, the in-process
+API — produces exactly the same outputs in `b` and in `b` without its will
+messages, and the resulting states again differ at most in will messages: no
+such event sends anything that stems from a stored will. -/
+theorem C09_only_stop_reads_will (b : B) (e : Ev) (h : ∀ c, e ≠ .close c) :
+    (step (eraseWills b) e).2 = (step b e).2 ∧
+    eraseWills (step (eraseWills b) e).1 = eraseWills (step b e).1 :=
+  step_ew b e h
+
+/-- the same for any sequence of such events -/
+theorem C09_only_stop_reads_will_run (b : B) (evs : List Ev) (h : ∀ e ∈ evs, ∀ c, e ≠ .close c) :
+    (run (eraseWills b) evs).2 = (run b evs).2 :=
+  (run_ew evs h b (eraseWills b) (eraseWills_idem b)).1
+
+/-- and `stop` itself reads it only under a set will flag -/
+theorem C09_stop_reads_will_only_with_flag (b : B) (c : Nat) (cn : Conn) (s : Sess)
+    (hc : b.getConn c = some cn) (ha : cn.alive = true) (hs : b.getSess cn.sess = some s)
+    (hf : s.willFlag = false) :
+    stop (eraseWills b) c = (eraseWills (stop b c).1, (stop b c).2) :=
+  stop_ew_noflag b c cn s hc ha hs hf
+
+/-- non-vacuity: with listeners on the will topic "w", a run of publishes,
+(un)subscribes, a resuming CONNECT of the same client and a DISCONNECT gives the
+same outputs with and without the stored wills, while a `close` of connection 1
+does not (so the exclusion is needed). -/
+example :
+    let evs : List Ev := [.packet 2 (.publish { qos := 1, topic := Ex.tW, pktid := 9, payload := [3] }),
+      .srvPub { qos := 0, topic := Ex.tW, payload := [4] }, .packet 1 (.unsubscribe 5 [Ex.tW]),
+      .first 4 (.connect (Ex.conn Ex.idA false)) true, .packet 1 .disconnect, .packet 4 .pingreq]
+    (run (eraseWills Ex.base2) evs).2 = (run Ex.base2 evs).2 ∧
+    (run Ex.base2 evs).2.length = 6 ∧ (run Ex.base2 evs).2.head? = some
+      [.send 2 (.puback 9), .send 1 (.publish { qos := 1, topic := Ex.tW, pktid := 9, payload := [3] }),
+       .send 2 (.publish { qos := 1, topic := Ex.tW, pktid := 9, payload := [3] }),
+       .call 1000 { qos := 0, topic := Ex.tW, pktid := 9, payload := [3] }] ∧
+    (stop (eraseWills Ex.base2) 1).2 ≠ (stop Ex.base2 1).2 := by decide
 
 end Mqtt.Properties.C09
